@@ -61,6 +61,7 @@ def c05_2(ctx):
             chain = if_chain(s)
             break
     ctx.need(chain is not None, 'adj dispatch of Calendar.adjust not found')
+    chain = flip_negated_tail(chain, lambda t: classify_test(t)[0].startswith('startswith'))
     rows = {}
     for test, body in chain:
         if test is None:
